@@ -37,7 +37,8 @@ def leg_a(ctx):
 
 
 def histories(ctx, n):
-    r = tlc.run("MC_Fit.tla", "MC_Fit_sim.cfg", workers=1, workdir=ctx.work,
+    # orders up to 2 in the quick tier, up to 3 (the whole quantifier; a best-fit search over 16 candidates) in the thorough one
+    r = tlc.run("MC_Fit.tla", "MC_Fit_sim.cfg" if ctx.tier == "quick" else "MC_Fit_sim3.cfg", workers=1, workdir=ctx.work,
                 extra=("-simulate", "num=%d" % n, "-depth", "7", "-seed", str(ctx.seed + 17)))
     out, seen = [], set()
     for ln in r.printed:
